@@ -1,5 +1,5 @@
 """C04 - graded Euler characteristic of Kh is the Jones polynomial (agreement of the degree conventions only)."""
-import e8_formulas
+import e8_formulas, e7_tables
 
 LEVEL = 'other'
 EXPLANATION = ('The identity chi_q(Kh) = Jones can only hold if the two independent encodings of the grading conventions agree: (F2) the '
@@ -16,3 +16,4 @@ def run(ctx, rep):
     rep.rule('E8', e8_formulas.__doc__.strip().split('\n')[0])
     e8_formulas.check_shift(facts, rep)
     e8_formulas.check_gen_degrees(facts, rep)
+    e7_tables.check_shared_visited(facts, rep)
